@@ -46,7 +46,7 @@ func v4configs(thorough bool) []v4model {
 		}
 	}
 	return []v4model{
-		{v4cfg{name: "k2 direct+relay+hlen", clients: 2, hlen: true, relay: true}, 5, 3},
+		{v4cfg{name: "k2 direct+relay+hlen", clients: 2, hlen: true, relay: true}, 5, 2},
 	}
 }
 
@@ -56,10 +56,15 @@ type v4cfg struct {
 	hlen    bool // add pseudo clients m1h0 / m1h16 (chaddr of length 0 / 16)
 	relay   bool // relayed variants with circuit-ids c1,c2
 	nilLdr  bool
+	lease   time.Duration // 0 = v4Lease
 }
 
 type cview struct { // what one client has observed
 	offer, leased, prev string
+	// pinned: the address of the client's latest OFFER that was never followed by an ACK,
+	// RELEASE or (valid) DECLINE of this client; survives NAKs and time (root-cause evidence
+	// for the "reservation without lease is never reclaimed" class)
+	pinned map[string]bool
 }
 
 type offerRec struct {
@@ -81,6 +86,8 @@ type v4sys struct {
 	viols    []explore.Viol
 	hook     func(v explore.Viol, class string, trace []string)
 	trace    []string
+	now      func() time.Time // time source
+	noStale  bool             // leases are born expired (Engine B "expired" scenarios): skip the expired-not-removed check
 }
 
 func (s *v4sys) setHooks(h func(v explore.Viol, class string, trace []string)) { s.hook = h }
@@ -113,10 +120,15 @@ func ip4s(ip net.IP) string {
 	return ip.String()
 }
 
-func newV4sys(c v4cfg, sleep func(time.Duration)) *v4sys {
+func newV4sys(c v4cfg, sleep func(time.Duration)) *v4sys { return newV4sysClock(c, sleep, time.Now) }
+
+func newV4sysClock(c v4cfg, sleep func(time.Duration), now func() time.Time) *v4sys {
 	s := &v4sys{c: c, hw: map[string][]byte{}, byMAC: map[string]string{}, view: map[string]*cview{},
-		offers: map[string]offerRec{}, declined: map[string]bool{}}
-	s.d = dhcpdrv.NewV4(dhcpdrv.V4Config{Network: v4Net + "/29", Gateway: v4Gw, Lease: v4Lease, NilLoader: c.nilLdr, Sleep: sleep})
+		offers: map[string]offerRec{}, declined: map[string]bool{}, now: now}
+	if c.lease == 0 {
+		c.lease = v4Lease
+	}
+	s.d = dhcpdrv.NewV4(dhcpdrv.V4Config{Network: v4Net + "/29", Gateway: v4Gw, Lease: c.lease, NilLoader: c.nilLdr, Sleep: sleep, Now: now})
 	for i := 1; i <= c.clients; i++ {
 		s.addClient(fmt.Sprintf("m%d", i), []byte{2, 0, 0, 0, 0, byte(i)})
 	}
@@ -131,7 +143,7 @@ func (s *v4sys) addClient(name string, hw []byte) {
 	s.names = append(s.names, name)
 	s.hw[name] = hw
 	s.byMAC[net.HardwareAddr(hw).String()] = name
-	s.view[name] = &cview{}
+	s.view[name] = &cview{pinned: map[string]bool{}}
 }
 
 func (s *v4sys) pseudo(n string) bool { return strings.Contains(n, "h") }
@@ -222,7 +234,7 @@ func (s *v4sys) Apply(op string) string {
 		var sec int
 		fmt.Sscanf(op, "+%ds", &sec)
 		s.d.Advance(time.Duration(sec) * time.Second)
-		now := time.Now()
+		now := s.now()
 		for n, o := range s.offers {
 			if now.Sub(o.at) >= offerHold {
 				delete(s.offers, n)
@@ -298,7 +310,7 @@ func (s *v4sys) msg(n, kind, circuit string) string {
 	}
 	site := m.Type.String()
 
-	now := time.Now()
+	now := s.now()
 	pre := s.d.Leases()
 	myKey := net.HardwareAddr(s.hw[n]).String()
 	var own, ownAny *dhcpdrv.Lease // my own unexpired binding / my lease-table entry before the message
@@ -337,9 +349,10 @@ func (s *v4sys) msg(n, kind, circuit string) string {
 				}
 			}
 			if ownAny != nil && ip4s(ownAny.IP) == x {
-				delete(s.offers, n) // the OFFER restates the client's own lease: the lease is the reservation
+				// the OFFER restates the client's own lease: the lease is the reservation
 			} else {
-				s.offers[n] = rec
+				s.offers[n+"/"+x] = rec // (a client can hold offers on two addresses: own reservation + its line's lease)
+				v.pinned[x] = true
 			}
 		case dhcpv4.MessageTypeAck:
 			if m.Type == dhcpv4.MessageTypeInform && x == "" {
@@ -357,7 +370,8 @@ func (s *v4sys) msg(n, kind, circuit string) string {
 					s.v("O1-ack-leased-to-other", site, "%s was ACKed %s which is leased (unexpired, %v left) to %s", n, x, l.ExpiresAt.Sub(now), s.who(l.Key))
 				}
 			}
-			for on, o := range s.offers {
+			for ok, o := range s.offers {
+				on := ok[:strings.Index(ok, "/")]
 				if on != n && o.ip == x && !(mc != "" && mc == o.circuit) {
 					how := ""
 					if o.viaLine {
@@ -370,7 +384,8 @@ func (s *v4sys) msg(n, kind, circuit string) string {
 				s.v("O4-renew-changed", site, "%s holds an unexpired lease on %s but was ACKed %s", n, ip4s(own.IP), x)
 			}
 			v.leased, v.prev, v.offer = x, x, ""
-			delete(s.offers, n)
+			delete(v.pinned, x)
+			delete(s.offers, n+"/"+x)
 		case dhcpv4.MessageTypeNak:
 			// the client restarts; the server-side reservation of an earlier OFFER is not
 			// cancelled by a NAK (it lapses with the offer hold)
@@ -385,14 +400,16 @@ func (s *v4sys) msg(n, kind, circuit string) string {
 		}
 	case dhcpv4.MessageTypeRelease:
 		v.leased, v.offer = "", ""
-		delete(s.offers, n)
+		delete(v.pinned, target)
+		delete(s.offers, n+"/"+target)
 	case dhcpv4.MessageTypeDecline:
 		// A DECLINE has standing only if the sender holds the lease on the address it names
 		// (whatever symbolic op produced it); then the address is retired for the horizon.
 		if ownAny != nil && ip4s(ownAny.IP) == target {
 			s.declined[target] = true
 			v.leased, v.offer = "", ""
-			delete(s.offers, n)
+			delete(v.pinned, target)
+			delete(s.offers, n+"/"+target)
 		}
 	}
 	s.postCheck(site)
@@ -411,13 +428,13 @@ func (s *v4sys) who(key string) string {
 
 // postCheck: lease-table invariants after every step.
 func (s *v4sys) postCheck(site string) {
-	now := time.Now()
+	now := s.now()
 	ls := s.d.Leases()
 	for i, a := range ls {
 		if !isUsable(ip4s(a.IP)) {
 			s.v("O3-outside-pool", site, "lease table binds %s to %q which is not an assignable pool address", s.who(a.Key), ip4s(a.IP))
 		}
-		if !s.held(a, now) {
+		if !s.noStale && !s.held(a, now) {
 			s.v("O6-expired-not-removed", site, "lease of %s on %s expired at %v, a cleanup tick ran at %v, entry still present", s.who(a.Key), a.IP, a.ExpiresAt.Sub(now), s.d.LastTick.Sub(now))
 		}
 		for _, b := range ls[i+1:] {
@@ -429,7 +446,7 @@ func (s *v4sys) postCheck(site string) {
 }
 
 func (s *v4sys) Fingerprint() string {
-	now := time.Now()
+	now := s.now()
 	var sb strings.Builder
 	sb.WriteString(deepdump.Dump(s.d.Srv, deepdump.Options{Now: now,
 		SkipTypes: map[string]bool{"ebpf.Loader": true},
@@ -444,9 +461,14 @@ func (s *v4sys) Fingerprint() string {
 		}}))
 	for _, n := range s.names {
 		v := s.view[n]
-		o := s.offers[n]
-		fmt.Fprintf(&sb, "|%s:%s,%s,%s,%s/%s/%v", n, v.offer, v.leased, v.prev, o.ip, o.circuit, o.viaLine)
+		fmt.Fprintf(&sb, "|%s:%s,%s,%s,%v", n, v.offer, v.leased, v.prev, keys(v.pinned))
 	}
+	var ok []string
+	for k, o := range s.offers {
+		ok = append(ok, fmt.Sprintf("%s/%s/%v", k, o.circuit, o.viaLine))
+	}
+	sort.Strings(ok)
+	fmt.Fprintf(&sb, "|offers=%v", ok)
 	var dl []string
 	for d := range s.declined {
 		dl = append(dl, d)
@@ -473,14 +495,14 @@ func (s *v4sys) Check() []explore.Viol {
 	if len(s.viols) > 0 {
 		return s.viols
 	}
-	now := time.Now()
+	now := s.now()
 	reserved := map[string]string{}
 	for _, l := range s.d.Leases() {
 		reserved[ip4s(l.IP)] = "lease of " + s.who(l.Key)
 	}
-	for n, o := range s.offers {
+	for k, o := range s.offers {
 		if _, ok := reserved[o.ip]; !ok {
-			reserved[o.ip] = "offer to " + n
+			reserved[o.ip] = "offer to " + k[:strings.Index(k, "/")]
 		}
 	}
 	for d := range s.declined {
@@ -529,9 +551,11 @@ func (s *v4sys) Check() []explore.Viol {
 		for _, x := range missing {
 			pinned := false
 			for mac, ip := range ps.Allocated {
-				if ip == x && !leased[mac] {
+				if cv := s.view[s.who(mac)]; ip == x && !leased[mac] && cv != nil && cv.pinned[x] {
 					pinned = true
-					why = append(why, fmt.Sprintf("%s pinned by pool entry of %s (no lease)", x, s.who(mac)))
+					why = append(why, fmt.Sprintf("%s pinned by pool entry of %s (no lease; its latest OFFER was never requested)", x, s.who(mac)))
+				} else if ip == x {
+					why = append(why, fmt.Sprintf("%s still in the pool's MAC table for %s", x, s.who(mac)))
 				}
 			}
 			if pinned {
